@@ -23,15 +23,13 @@ Definition ZmmdT := @multi_mode_dot_T Z 0%Z Z.add Z.mul.
 Definition Zp2_dense := @p2_dense Z 0%Z Z.add Z.mul.
 
 (* history-recording instance of the skeleton: a factor is the list of sweeps in which it was touched -- assigned by the
-   sweep, or rewritten by the orthogonalise hook (modes in `orthable`: min(shape) >= rank; iterations <= k for
-   orthogonalise = Some k) *)
+   sweep, or replaced by the orthogonalise hook (modes in `orthable`: min(shape) >= rank; iterations <= k for
+   orthogonalise = Some k; the model applies the hook to non-fixed modes only, as the code does since ef1ea18) *)
 Definition trace_upd (it m : nat) (s : st (list nat) unit unit) : list nat * unit := (nth m (facs s) [] ++ [it], tt).
-Fixpoint mark_modes (it : nat) (orthable : list nat) (off : nat) (hs : list (list nat)) : list (list nat) :=
-  match hs with [] => [] | h :: r => (if memb off orthable then h ++ [it] else h) :: mark_modes it orthable (S off) r end.
 Definition trace_run (a : algo) (n : nat) (fixed : list nat) (budget : nat) (tol : bool) (stops : list bool)
     (ortho : option nat) (orthable : list nat) : res (list (list nat)) :=
   match run trace_upd (fun it _ => nth it stops false) (fun s => s) false
-            (fun it s => mkst (wts s) (mark_modes it orthable 0 (facs s)) tt)
+            (fun it m s => if memb m orthable then nth m (facs s) [] ++ [it] else nth m (facs s) [])
             (fun it => match ortho with Some k => Nat.leb it k | None => false end)
             (fun _ _ => tt) (fun _ => false) (fun _ _ _ => false) (fun _ _ l c => c) (fun _ _ l c => c) (fun _ _ _ => tt)
             a n fixed budget tol (mkst tt (repeat [] n) tt) with
